@@ -62,7 +62,7 @@ def build_queries(rng, schema, events, ctxs, nq, wide=0):
         for f in schema.fields:
             data_values.setdefault(f.name, []).append(e["payload"].get(f.name))
     qs = []
-    clean_field = lambda f: (not f.optional) and f.kind in ("int", "u64", "string", "enum", "datetime")
+    clean_field = lambda f: (not f.optional) and f.kind in ("int", "u64", "string", "enum", "datetime", "bool")
     for i in range(nq):
         r = rng.random()
         want_clean = (i % 2 == 0)
@@ -143,26 +143,14 @@ def families(q, schema):
     A query with no family is in the clean partition: any discrepancy there is unlisted."""
     fam = []
     e = q["expr"]
-    if q["since"]:
-        fam.append("since_using")
     if e is None:
-        return fam
-    if "NOT" in e.shape():
-        fam.append("not")
-    if "OR(" in e.shape():
-        fam.append("or")
+        return []
     for l in e.leaves():
         f = schema.by_name[l.field]
         if f.optional:
             fam.append("optional_field")
         if f.kind == "float" or l.lit_kind.startswith("float"):
             fam.append("float")
-        if f.kind == "bool":
-            fam.append("bool")
-        if isinstance(l, pred.In):
-            fam.append("in_list")
-        if f.kind == "enum" and l.lit_kind == "unknown_variant":
-            fam.append("enum_unknown_variant")
         if f.kind == "u64" and l.lit_kind == "int_negative":
             fam.append("u64_negative_literal")
         if f.kind == "string" and l.op in ("<", "<=", ">", ">="):
